@@ -4,6 +4,7 @@ import (
 	"fmt"
 	"go/types"
 	"sort"
+	"strings"
 	"math/big"
 
 	"golang.org/x/tools/go/ssa"
@@ -316,7 +317,7 @@ func (e *Exec) strKey(s *StringVal) []*Term {
 	return nil
 }
 
-func (e *Exec) parseIntModel(st *State, s *StringVal, bits int, signed bool, tag string) (*Term, *IfaceVal) {
+func (e *Exec) parseIntModel(st *State, s *StringVal, base int, bits int, signed bool, tag string) (*Term, *IfaceVal) {
 	c := e.C
 	var t types.Type = types.Typ[types.Uint64]
 	if signed {
@@ -345,12 +346,44 @@ func (e *Exec) parseIntModel(st *State, s *StringVal, bits int, signed bool, tag
 	}
 	// empty string never parses
 	st.assume(c.Implies(c.Eq(s.Len, e.idx(0)), c.Not(okb)))
-	// link to decimal tag when the string is a known rendering dec(x): parse succeeds with that value
-	if s.Tag != nil && len(s.Tag.Segs) == 1 && s.Tag.Segs[0].Kind == "dec" {
-		x := s.Tag.Segs[0].T
-		if x.S == v.S {
+	// the string is a known rendering of an integer x (Sprintf %d / %x / Itoa): parsing in the same base
+	// succeeds exactly when x fits the requested bit size, and yields x
+	if s.Tag != nil && len(s.Tag.Segs) == 1 {
+		sg := s.Tag.Segs[0]
+		okKind := (base == 10 && sg.Kind == "dec") || (base == 16 && (sg.Kind == "hex" || sg.Kind == "HEX"))
+		if okKind && !e.IntMode && sg.T.S.IsBV() {
+			x := sg.T
+			var x64 *Term
+			if sg.Signed && sg.Kind == "dec" {
+				x64 = c.SExt(x, 64)
+			} else {
+				x64 = c.ZExt(x, 64)
+			}
+			var fits *Term
+			if signed {
+				lo := c.BVConst(new(big.Int).Neg(pow2(uint(bits-1))), 64)
+				hi := c.BVConst(new(big.Int).Sub(pow2(uint(bits-1)), big.NewInt(1)), 64)
+				fits = c.And(c.SLe(lo, x64), c.SLe(x64, hi))
+				if !(sg.Signed && sg.Kind == "dec") {
+					fits = c.And(fits, c.SLe(c.BVu(0, 64), x64)) // unsigned rendering: value as unsigned must fit
+				}
+			} else {
+				fits = c.True()
+				if bits < 64 {
+					fits = c.ULe(x64, c.BVConst(new(big.Int).Sub(pow2(uint(bits)), big.NewInt(1)), 64))
+				}
+				if sg.Signed && sg.Kind == "dec" {
+					fits = c.And(fits, c.SLe(c.BVu(0, 64), x64)) // a leading '-' is rejected by ParseUint
+				}
+			}
+			st.assume(c.Eq(okb, fits))
+			st.assume(c.Implies(okb, c.Eq(v, x64)))
+			err := &IfaceVal{Opaque: true, IsNil: okb, ID: c.Fresh("errid", BV(64))}
+			return v, err
+		}
+		if okKind && e.IntMode && sg.T.S.IsInt() {
 			st.assume(okb)
-			st.assume(c.Eq(v, x))
+			st.assume(c.Eq(v, sg.T))
 		}
 	}
 	// ghost link: parse_val / parse_ok are functions of the string identity
@@ -390,8 +423,7 @@ func intrParseInt(e *Exec, st *State, fr *Frame, args []Val, in ssa.Instruction,
 	if bits == 0 {
 		bits = 64
 	}
-	_ = base
-	v, err := e.parseIntModel(st, args[0].(*StringVal), int(bits), true, "parseint")
+	v, err := e.parseIntModel(st, args[0].(*StringVal), int(base), int(bits), true, "parseint")
 	return []callRes{{st, TupleVal{v, err}}}
 }
 
@@ -403,12 +435,16 @@ func intrParseUint(e *Exec, st *State, fr *Frame, args []Val, in ssa.Instruction
 	if bits == 0 {
 		bits = 64
 	}
-	v, err := e.parseIntModel(st, args[0].(*StringVal), int(bits), false, "parseuint")
+	base, okb := constInt(args[1])
+	if !okb {
+		e.bail("ParseUint with symbolic base")
+	}
+	v, err := e.parseIntModel(st, args[0].(*StringVal), int(base), int(bits), false, "parseuint")
 	return []callRes{{st, TupleVal{v, err}}}
 }
 
 func intrAtoi(e *Exec, st *State, fr *Frame, args []Val, in ssa.Instruction, rt types.Type) []callRes {
-	v, err := e.parseIntModel(st, args[0].(*StringVal), 64, true, "atoi")
+	v, err := e.parseIntModel(st, args[0].(*StringVal), 10, 64, true, "atoi")
 	return []callRes{{st, TupleVal{v, err}}}
 }
 
@@ -679,12 +715,23 @@ func intrTrimSuffix(e *Exec, st *State, fr *Frame, args []Val, in ssa.Instructio
 
 // TrimSpace: result is a sub-window of the input (contents preserved).
 func intrTrimSpace(e *Exec, st *State, fr *Frame, args []Val, in ssa.Instruction, rt types.Type) []callRes {
-	s := args[0].(*StringVal)
+	return []callRes{{st, e.trimSpace(st, args[0].(*StringVal))}}
+}
+
+// trimSpace: the result is a sub-window of the input; for symbolic inputs the window bounds are
+// uninterpreted functions of the string identity (so that contracts can refer to the same window).
+func (e *Exec) trimSpace(st *State, s *StringVal) *StringVal {
 	c := e.C
-	a := c.Fresh("trim.lo", e.idxSort())
-	b := c.Fresh("trim.hi", e.idxSort())
-	st.assume(c.And(e.leIdx(a, b), e.leIdx(b, s.Len)))
-	return []callRes{{st, &StringVal{C: s.C, Off: c.Add(s.Off, a), Len: c.Sub(b, a)}}}
+	var a, b *Term
+	if id := e.strIdent(s); id != nil {
+		a = c.App("trimspace_lo", e.idxSort(), id...)
+		b = c.App("trimspace_hi", e.idxSort(), id...)
+	} else {
+		a = c.Fresh("trim.lo", e.idxSort())
+		b = c.Fresh("trim.hi", e.idxSort())
+	}
+	st.assume(c.And(e.nonNeg(a), e.leIdx(a, b), e.leIdx(b, s.Len)))
+	return &StringVal{C: s.C, Off: c.Add(s.Off, a), Len: c.Sub(b, a)}
 }
 
 func intrRepeat(e *Exec, st *State, fr *Frame, args []Val, in ssa.Instruction, rt types.Type) []callRes {
@@ -852,7 +899,89 @@ func (e *Exec) splitResult(st *State, elem types.Type, name string, minN int64, 
 	return r
 }
 
+// splitTagged: Split of a string built from literal and numeric-rendering segments, on a one-byte separator
+// that cannot occur inside a numeric rendering: exact.
+func (e *Exec) splitTagged(st *State, s, sep *StringVal) ([]Val, bool) {
+	lit, ok := concreteString(sep)
+	if !ok || len(lit) != 1 || s.Tag == nil {
+		return nil, false
+	}
+	b := lit[0]
+	if (b >= '0' && b <= '9') || (b >= 'a' && b <= 'f') || (b >= 'A' && b <= 'F') || b == '-' || b == '+' {
+		return nil, false
+	}
+	var parts []Val
+	var cur []StrSeg
+	flush := func() {
+		parts = append(parts, e.stringFromSegs(st, cur))
+		cur = nil
+	}
+	for _, sg := range s.Tag.Segs {
+		switch sg.Kind {
+		case "lit":
+			rest := sg.Lit
+			for {
+				i := strings.IndexByte(rest, b)
+				if i < 0 {
+					break
+				}
+				if i > 0 {
+					cur = append(cur, StrSeg{Kind: "lit", Lit: rest[:i]})
+				}
+				flush()
+				rest = rest[i+1:]
+			}
+			if rest != "" {
+				cur = append(cur, StrSeg{Kind: "lit", Lit: rest})
+			}
+		case "dec", "hex", "HEX":
+			cur = append(cur, sg)
+		case "str":
+			sh, ok := e.knownShape(st, sg.S)
+			if !ok {
+				return nil, false
+			}
+			pieces, ok := e.splitByShape(st, sg.S, sh, b)
+			if !ok {
+				return nil, false
+			}
+			for k, pc := range pieces {
+				if k > 0 {
+					flush()
+				}
+				if ps := pc.(*StringVal); !(ps.Len.IsConst() && ps.Len.C.Sign() == 0) {
+					cur = append(cur, StrSeg{Kind: "str", S: ps})
+				}
+			}
+		default:
+			return nil, false
+		}
+	}
+	flush()
+	return parts, true
+}
+
 func intrSplit(e *Exec, st *State, fr *Frame, args []Val, in ssa.Instruction, rt types.Type) []callRes {
+	if s, ok := args[0].(*StringVal); ok {
+		if sep, ok := args[1].(*StringVal); ok {
+			if sepS, isC := concreteString(sep); isC && len(sepS) == 1 && s.Tag == nil {
+				if sh, ok := e.knownShape(st, s); ok {
+					if parts, ok := e.splitByShape(st, s, sh, sepS[0]); ok {
+						elem := rt.Underlying().(*types.Slice).Elem()
+						n := e.idx(int64(len(parts)))
+						id := e.newObj(st, &ArrayVal{ElemT: elem, Len: n, List: parts}, &ObjMeta{T: types.NewArray(elem, int64(len(parts))), Fresh: true})
+						return []callRes{{st, &SliceVal{Obj: id, Off: e.idx(0), Len: n, Cap: n, Nil: e.C.False(), ElemT: elem}}}
+					}
+				}
+			}
+			if parts, ok := e.splitTagged(st, s, sep); ok {
+				elem := rt.Underlying().(*types.Slice).Elem()
+				n := e.idx(int64(len(parts)))
+				id := e.newObj(st, &ArrayVal{ElemT: elem, Len: n, List: parts}, &ObjMeta{T: types.NewArray(elem, int64(len(parts))), Fresh: true})
+				return []callRes{{st, &SliceVal{Obj: id, Off: e.idx(0), Len: n, Cap: n, Nil: e.C.False(), ElemT: elem}}}
+			}
+		}
+	}
 	_, _, sl := e.seqOfVal(st, args[0])
 	elem := rt.Underlying().(*types.Slice).Elem()
 	r := e.splitResult(st, elem, "split", 1, e.C.Add(sl, e.idx(1)), sl)
@@ -928,6 +1057,21 @@ func intrContains(e *Exec, st *State, fr *Frame, args []Val, in ssa.Instruction,
 	s, ok1 := args[0].(*StringVal)
 	sep, ok2 := args[1].(*StringVal)
 	if ok1 && ok2 {
+		if sepS, isC := concreteString(sep); isC && len(sepS) == 1 && s.Tag == nil {
+			if sh, ok := e.knownShape(st, s); ok {
+				decided, found := true, false
+				for i := range sh {
+					if sh[i].lit == int(sepS[0]) {
+						found = true
+					} else if sh[i].set[sepS[0]] {
+						decided = false
+					}
+				}
+				if found || decided {
+					return []callRes{{st, e.C.Bool(found)}}
+				}
+			}
+		}
 		if cnt, ok := e.sepCount(st, s, sep); ok {
 			return []callRes{{st, e.leIdx(e.idx(1), cnt)}}
 		}
